@@ -55,6 +55,16 @@ CHECKS = {
               'an equivalence that distinguishes. The thorough tier additionally installs icontract class invariants on Graph/HRG so objects the '
               'library builds internally are checked around every public method. One recorded open finding (rhs mutated after rule creation).'),
         design_ref='DESIGN.md §4 C16'),
+    'C02': dict(
+        technique='boundary monitor vs dense Kleene reference + offline trace checker over hooked solver events (stop verdicts, warnings, per-SCC method) (runtime monitoring)',
+        text=('Runtime monitoring: generated recursive grammars (linear, non-linear, mutually recursive, mixed SCC DAGs, cycles of weight exactly one) are '
+              'conditioned so that an independent dense Kleene iteration converges (spectral radius <= 0.9), then solved by the real library under 4 '
+              'semirings x 3 methods x tol in {1e-4,1e-8,1e-12} and under starved budgets kmax in {0,1,2,5}. Values are compared with the reference '
+              '(exact in Bool, 1e-9 in Viterbi, a tol-proportional bound derived from the Jacobian in Real/Log). Hooks on fixed_point, newton, '
+              'MultiTensor.shouldStop and warnings.warn record per solver activation the stopping verdicts and warnings; the offline rule is that a '
+              'solver returning with its last verdict False must have warned. method="linear" must raise ValueError exactly on specs that are not '
+              'linearly recursive.'),
+        design_ref='DESIGN.md §4 C02'),
 }
 
 NOT_BUILT = {}
